@@ -1698,6 +1698,10 @@ impl Tree {
 
         self.get_mut(&to_remove)?.delete();
 
+        // The subtree moved one level closer to the root
+        let depth = self.get(&parent)?.depth + 1;
+        self.reset_depth_impl(&child, depth)?;
+
         Ok(())
     }
 
@@ -1783,6 +1787,9 @@ impl Tree {
                     self.get_mut(&child)?.set_parent(parent, edge);
                     self.get_mut(&node_id)?.remove_child(&child)?;
                 }
+                // The moved children are now one level deeper
+                let depth = self.get(&parent)?.depth;
+                self.reset_depth_impl(&parent, depth)?;
 
                 children.push(parent);
 
@@ -1891,6 +1898,10 @@ impl Tree {
         // Set new parent in child nodes
         self.get_mut(child1)?.set_parent(parent, edge1);
         self.get_mut(child2)?.set_parent(parent, edge2);
+
+        // The merged subtrees are now one level deeper
+        let depth = self.get(&parent)?.depth;
+        self.reset_depth_impl(&parent, depth)?;
 
         Ok(parent)
     }
